@@ -19,6 +19,7 @@ real-loop drain oracle of `harness/props/c02.py`, not by a theorem (see DESIGN.m
 import SshuttleModel.Props.C01
 import SshuttleModel.Lemmas.SockInv
 import SshuttleModel.Lemmas.Progress
+import SshuttleModel.Props.C08
 import SshuttleModel.Spec.Quiet
 
 namespace Sshuttle.Tunnel
@@ -655,6 +656,117 @@ theorem C02_finished_noticed_in_callback (p : ProxyS) (m : MuxL) (e : ESock) (io
   cases sf <;> cases sw <;> cases ww <;> cases wr <;> cases sr <;>
     simp_all [ProxyS.preSelectFlags, MuxW.noread, SockW.noread]
 
+/-! ### The same at the level of the select loop: one pass in which the tunnel was readable -/
+
+/-- What a handler looks like right after its own callback. -/
+def Noticed (p : ProxyS) : Prop :=
+  Settled p ∧ (p.sw.shutW = true → p.mw.shutW = true → p.sw.buf = [] → p.mw.buf = [] → p.ok = false)
+
+/-- The callbacks `runonce` makes when the tunnel's read file is ready: it is in every handler's
+`socks`, so every handler of that end gets its callback, in list order, each with whatever its own
+socket does (`ios i`). -/
+def passCallbacks (e : End) (ios : Nat → CbIo) (k : Nat) : List Step :=
+  (List.range k).map fun i => Step.cb e i (ios i)
+
+theorem cb_noticed (w : World) (e : End) (i : Nat) (io : CbIo) (hd : (w.stepRaw (.cb e i io)).died = none)
+    (hd0 : w.died = none) (f : Flow) (p : ProxyS) (hf : (w.stepRaw (.cb e i io)).flows[i]? = some f)
+    (hp : handlerAt e f = some p) (hi : ∃ f0, w.flows[i]? = some f0 ∧ (handlerAt e f0).isSome) : Noticed p := by
+  obtain ⟨f0, hf0, hh0⟩ := hi
+  cases e with
+  | client =>
+    simp only [World.stepRaw, World.cbC, hf0] at hd hf
+    simp only [handlerAt] at hh0 hp
+    cases hc : f0.c with
+    | none => rw [hc] at hh0; cases hh0
+    | some p0 =>
+      rw [hc] at hd hf
+      simp only at hd hf
+      cases hcb : p0.callback w.cm f0.app io with
+      | died => rw [hcb] at hd; simp at hd
+      | ok p' m' e' =>
+        rw [hcb] at hf
+        simp only [modifyAt_getElem?, ↓reduceIte, hf0, Option.map_some, Option.some.injEq] at hf
+        subst hf
+        simp only [Option.some.injEq] at hp
+        subst hp
+        exact callback_settled p0 w.cm f0.app io _ m' e' hcb
+  | server =>
+    simp only [World.stepRaw, World.cbS, hf0] at hd hf
+    simp only [handlerAt] at hh0 hp
+    cases hc : f0.s with
+    | none => rw [hc] at hh0; cases hh0
+    | some p0 =>
+      rw [hc] at hd hf
+      simp only at hd hf
+      cases hcb : p0.callback w.sm f0.dst io with
+      | died => rw [hcb] at hd; simp at hd
+      | ok p' m' e' =>
+        rw [hcb] at hf
+        simp only [modifyAt_getElem?, ↓reduceIte, hf0, Option.map_some, Option.some.injEq] at hf
+        subst hf
+        simp only [Option.some.injEq] at hp
+        subst hp
+        exact callback_settled p0 w.sm f0.dst io _ m' e' hcb
+
+theorem step_died_none {w : World} {st : Step} (h : (w.step st).died = none) :
+    w.died = none ∧ w.step st = w.stepRaw st := by
+  unfold World.step at h ⊢
+  cases hw : w.died with
+  | some m => rw [hw] at h; simp at h; rw [hw] at h; cases h
+  | none =>
+    refine ⟨rfl, ?_⟩
+    simp only [Option.isSome_none, Bool.false_eq_true, ↓reduceIte] at h ⊢
+    cases hr : (w.stepRaw st).died with
+    | none => simp
+    | some m => rw [hr] at h; simp [hw] at h
+
+/-- **A pass of the loop in which the tunnel was readable leaves no finished flow unnoticed.**
+After the callbacks of such a pass, for any per-socket behaviour, every handler of that end is
+settled, and every handler whose two writers are shut and whose buffers are empty has `ok = False` —
+so the loop drops it at the start of the very next pass. -/
+theorem C02_pass_notices_finished (w : World) (e : End) (ios : Nat → CbIo) (k : Nat)
+    (hd : (w.run (passCallbacks e ios k)).died = none) :
+    ∀ i, i < k → ∀ f p, (w.run (passCallbacks e ios k)).flows[i]? = some f → handlerAt e f = some p → Noticed p := by
+  induction k with
+  | zero => intro i hi; omega
+  | succ k ih =>
+    have hsplit : passCallbacks e ios (k + 1) = passCallbacks e ios k ++ [Step.cb e k (ios k)] := by
+      simp [passCallbacks, List.range_succ]
+    rw [hsplit, World.run, List.foldl_append] at hd ⊢
+    simp only [List.foldl_cons, List.foldl_nil] at hd ⊢
+    have hrun : List.foldl World.step w (passCallbacks e ios k) = w.run (passCallbacks e ios k) := rfl
+    rw [hrun] at hd ⊢
+    obtain ⟨hd0, hst⟩ := step_died_none hd
+    rw [hst] at hd ⊢
+    intro i hi f p hf hp
+    by_cases hik : i = k
+    · subst hik
+      -- the handler existed before its callback (callbacks never create one)
+      have hex : ∃ f0, (w.run (passCallbacks e ios i)).flows[i]? = some f0 ∧ (handlerAt e f0).isSome := by
+        cases hf0 : (w.run (passCallbacks e ios i)).flows[i]? with
+        | none =>
+          exfalso
+          cases e <;> simp [World.stepRaw, World.cbC, World.cbS, hf0] at hf
+        | some f0 =>
+          refine ⟨f0, rfl, ?_⟩
+          cases hh : handlerAt e f0 with
+          | some _ => rfl
+          | none =>
+            exfalso
+            cases e
+            · simp only [handlerAt] at hh
+              simp only [World.stepRaw, World.cbC, hf0, hh] at hf
+              injection hf with hf; subst hf
+              simp [handlerAt, hh] at hp
+            · simp only [handlerAt] at hh
+              simp only [World.stepRaw, World.cbS, hf0, hh] at hf
+              injection hf with hf; subst hf
+              simp [handlerAt, hh] at hp
+      exact cb_noticed _ e i (ios i) hd hd0 f p hf hp hex
+    · have hunch := (C08_step_frame (w.run (passCallbacks e ios k)) e k (ios k)).1 i hik
+      rw [hunch] at hf
+      exact ih hd0 i (by omega) f p hf hp
+
 def demo4 : List Step :=
   [.accept, .deliver .server .ok, .deliver .server .ok, .dstEof 0,
    .cb .server 0 { recv := .data 65536 }, .deliver .client .ok, .deliver .client .ok, .cb .client 0 { send := .sent 65536 },
@@ -675,6 +787,14 @@ example :
     ((w.step (.cb .client 0 {})).flows.map fun f => f.c.map fun p => (p.ok, p.sw.shutR)) = [some (false, true)] := by
   intro w
   exact ⟨by decide +kernel, by decide +kernel, by decide +kernel⟩
+
+/-- `C02_pass_notices_finished` on the same reachable state: the pass in which the client's Mux
+handled the STOP_SENDING ends with the client's handler marked finished. -/
+example :
+    ((({} : World).run demo4).run (passCallbacks .client (fun _ => {}) 1)).died = none ∧
+    ((({} : World).run demo4).run (passCallbacks .client (fun _ => {}) 1)).flows.map (fun f => f.c.map (·.ok)) =
+      [some false] := by
+  exact ⟨by decide +kernel, by decide +kernel⟩
 
 /-- The hypotheses of `C02_wakeup_deliver` are met by the reachable state of `demo2` (the server
 holds `[1,2,3]` for a destination that is not shut): the callback delivers. -/
